@@ -12,7 +12,8 @@
 // KIND in INTEGER REAL NUMBER STRING BINARY BOOLEAN LOGICAL ENUM REF.
 // V: unset | i:<dec> | r:<16hex bits> | s:<hex> | b:<hex> | e:<NAME> | #<id>
 // `pos` is the stream offset after the call (state bits captured first, then cleared for tellg).
-// Instances #1 #5 #12 #123 of entity tgt and #7 of entity other exist in the instance manager for REF.
+// Instances #1 #5 #12 #123 #2147483647 of entity tgt and #7 of entity other exist in the instance manager for REF
+// (ids that 32-bit wrap-around of 2^32+k, 2^64+k, 2^32+2^31-1 would hit).
 #include <cstdio>
 #include <cstdlib>
 #include <cstring>
@@ -140,8 +141,8 @@ int main() {
             }
             inst[nm] = s;
         }
-    int tids[] = { 1, 5, 12, 123 };
-    for( int i = 0; i < 4; i++ ) {
+    int tids[] = { 1, 5, 12, 123, 2147483647 };
+    for( int i = 0; i < 5; i++ ) {
         SDAI_Application_instance * t = reg->ObjCreate( "Tgt" );
         t->StepFileId( tids[i] );
         mgr->Append( t, completeSE );
